@@ -8,19 +8,26 @@ HERE = os.path.dirname(os.path.abspath(__file__))
 VERIF = os.path.dirname(HERE)
 PY = "/venv/bin/python"
 
-CHECKS = {
-    "C17": dict(
-        category="proof",
-        text="Lean theorems (all values, all 1386 unit/param/mass/order/flag combinations) over a conversion table re-traced "
-        "from the current util.py on every run: from_si∘to_si = id and to_si∘from_si = id up to 1e-14 relative (rounding of the constants), "
-        "linearity, completeness of the table and equality of every factor with the physical definition (1e-5 relative). "
-        "Real containers (scalar, list, ndarray, dict, DataFrame) are checked by correspondence with the Lean driver.",
-        design_ref="DESIGN.md §5 C17",
-        note="trusted: Lean kernel, axioms {propext, Classical.choice, Quot.sound}; the tracing translator (harness/props/c17.py); "
-        "float rounding and numpy/pandas containers are exercised by the correspondence, not modelled",
-        technique="Lean 4 proof over translator-regenerated conversion table + differential run against the Lean driver",
-    ),
-}
+sys.path.insert(0, HERE)
+sys.path.insert(0, os.path.join(HERE, "props"))
+
+
+def load_checks():
+    import importlib
+
+    out = {}
+    for fn in sorted(os.listdir(os.path.join(HERE, "props"))):
+        m = __import__("re").match(r"^(c\d\d)\.py$", fn)
+        if not m:
+            continue
+        mod = importlib.import_module(m.group(1))
+        cls = getattr(mod, m.group(1).upper())
+        if cls.manifest:
+            out[cls.pid] = cls.manifest
+    return out
+
+
+CHECKS = load_checks()
 
 NOT_APPLICABLE = {}
 
